@@ -36,15 +36,75 @@ class Boom(Exception):
         self.ident = ident
 
 
+# Python values behind the integer codes used in cases: falsy / None results must travel through the pool
+# like any other value (a tile creator returns None for a blank tile).
+SPECIAL = {-1: None, -2: '', -3: False, -4: (), -5: 0.0, -6: []}
+
+
+def encode_value(v):
+    return SPECIAL[v] if v in SPECIAL else v
+
+
+def decode_value(r):
+    if r is None:
+        return -1
+    if r is False:
+        return -3
+    if isinstance(r, bool):
+        return None
+    if isinstance(r, int):
+        return r if r not in SPECIAL else None
+    if r == '' and isinstance(r, str):
+        return -2
+    if r == () and isinstance(r, tuple):
+        return -4
+    if isinstance(r, float) and r == 0.0:
+        return -5
+    if r == [] and isinstance(r, list):
+        return -6
+    return None
+
+
+class TraceTaskQueue(queue.Queue):
+    """task queue that logs task_done calls of worker threads (with the index of the task they took)."""
+
+    def __init__(self, log, loglock):
+        queue.Queue.__init__(self)
+        self.log, self.loglock = log, loglock
+        self.local = threading.local()
+
+    def get(self, *a, **kw):
+        item = queue.Queue.get(self, *a, **kw)
+        self.local.current = item[0] if isinstance(item, tuple) else None
+        return item
+
+    def task_done(self):
+        cur = getattr(self.local, 'current', None)
+        self.local.current = None
+        from mapproxy.util.async_ import ThreadWorker
+        if cur is not None and isinstance(threading.current_thread(), ThreadWorker):
+            with self.loglock:
+                self.log.append((False, cur))
+                queue.Queue.task_done(self)
+        else:
+            queue.Queue.task_done(self)
+
+
 class SignalQueue(queue.Queue):
     """result queue that reports every completed put (so the harness knows the arrival order)."""
 
-    def __init__(self):
+    def __init__(self, log=None, loglock=None, gate=None):
         queue.Queue.__init__(self)
         self.puts = queue.Queue()
+        self.log, self.loglock, self.gate = log, loglock or threading.Lock(), gate
 
     def put(self, item, *a, **kw):
-        queue.Queue.put(self, item, *a, **kw)
+        if self.gate is not None:
+            self.gate.wait(2.0)         # a slow put: the worker is held between computing and queueing its result
+        with self.loglock:
+            if self.log is not None and isinstance(item, tuple):
+                self.log.append((True, item[0]))
+            queue.Queue.put(self, item, *a, **kw)
         self.puts.put(item[0] if isinstance(item, tuple) else None)
 
 
@@ -68,8 +128,9 @@ def gen_arrival(rng, n, pool_size, mode):
     return arr
 
 
-def run_impl(api, pool_size, use_ro, items, arrival):
-    """items: list of ('ok', v) / ('exc', e).  Returns (yielded list, raised ident or None, hang flag)."""
+def run_impl(api, pool_size, use_ro, items, arrival, slow_put=False):
+    """items: list of ('ok', v) / ('exc', e).  Returns (yielded list, raised ident or None, hang flag, worker trace).
+    slow_put: every result_queue.put is held back until the consumer finished or a grace period passed."""
     from mapproxy.util.async_ import ThreadPool, AsyncResult
     n = len(items)
     events = [threading.Event() for _ in items]
@@ -80,10 +141,13 @@ def run_impl(api, pool_size, use_ro, items, arrival):
         kind, v = items[i]
         if kind == 'exc':
             raise Boom(v)
-        return v
+        return encode_value(v)
 
     pool = ThreadPool(pool_size)
-    pool.result_queue = SignalQueue()
+    trace, loglock = [], threading.Lock()
+    gate = threading.Event() if (slow_put and not sequential) else None
+    pool.result_queue = SignalQueue(trace, loglock, gate)
+    pool.task_queue = TraceTaskQueue(trace, loglock)
     out, raised, state = [], [None], {'done': False}
 
     def consume():
@@ -105,9 +169,11 @@ def run_impl(api, pool_size, use_ro, items, arrival):
                         ex = r.exception[1]
                         out.append(('exc', ex.ident if isinstance(ex, Boom) else -1))
                     else:
-                        out.append(('ok', r.result))
+                        d = decode_value(r.result)
+                        out.append(('ok', d) if d is not None else ('junk', repr(r.result)[:80]))
                 else:
-                    out.append(('ok', r) if isinstance(r, int) else ('junk', repr(r)[:80]))
+                    d = decode_value(r)
+                    out.append(('ok', d) if d is not None else ('junk', repr(r)[:80]))
         except Boom as ex:
             raised[0] = ex.ident
         except Exception as ex:  # noqa
@@ -120,7 +186,14 @@ def run_impl(api, pool_size, use_ro, items, arrival):
             e.set()
     t = threading.Thread(target=consume, daemon=True)
     t.start()
-    if not sequential:
+    if gate is not None:
+        for e in events:
+            e.set()
+        deadline = time.time() + 0.12
+        while time.time() < deadline and not state['done']:
+            time.sleep(0.005)
+        gate.set()
+    elif not sequential:
         for i in arrival:
             events[i].set()
             if state['done']:
@@ -139,7 +212,9 @@ def run_impl(api, pool_size, use_ro, items, arrival):
     hang = t.is_alive()
     for e in events:
         e.set()
-    return out, raised[0], hang
+    with loglock:
+        tr = list(trace)
+    return out, raised[0], hang, tr
 
 
 def vlit(item):
@@ -221,35 +296,61 @@ def gen_cases(ctx):
 
 
 def run(ctx):
-    cases = gen_cases(ctx)
+    cases = [(c, False) for c in gen_cases(ctx)]
+    # slow-put cases: every worker is held between computing its result and queueing it while the consumer
+    # is free to run (exposes a task_done that is signalled before the result is in the queue)
+    rng = ctx.rng
+    for _ in range(ctx.n(14, 80)):
+        n = rng.choice([2, 3, 4, 6])
+        ps = rng.choice([2, 3, 4, 6])
+        items = [('ok', rng.choice([-1, -2, -3, 0, 5, 17, 40 + i])) for i in range(n)]
+        cases.append(((rng.choice(['imap', 'starmap', 'starcall']), ps, rng.random() < 0.5, items, list(range(n))), True))
     terms, descr = [], []
-    for case in cases:
+    for case, slow in cases:
         api, ps, use_ro, items, arrival = case
-        out, raised, hang = run_impl(api, ps, use_ro, items, arrival)
+        out, raised, hang, trace = run_impl(api, ps, use_ro, items, arrival, slow_put=slow)
         n = len(items)
+        pool_path = not (ps < 2 or n == 1)
+        if pool_path and raised is None and not hang:
+            # the order in which results really reached the queue
+            arrival = [i for is_put, i in trace if is_put]
+            case = (api, ps, use_ro, items, arrival)
         nontrivial = n >= 2 and (arrival != sorted(arrival) or any(i[0] == 'exc' for i in items))
-        ctx.case((api, ps, use_ro, tuple(items), tuple(arrival)), nontrivial,
+        ctx.case((api, ps, use_ro, tuple(items), tuple(arrival), slow), nontrivial,
                  {'api': api, 'pool_size': ps, 'use_result_objects': use_ro, 'items': items,
-                  'completion_order': arrival, 'yielded': out, 'raised': raised})
+                  'completion_order': arrival, 'slow_put': slow, 'yielded': out, 'raised': raised})
         ctx.count('api=' + api)
         ctx.count('n=%d' % n)
         ctx.count('pool_size=%d' % ps)
         ctx.count('mode=' + ('result' if use_ro else 'raise'))
         ctx.count('failing=%d' % sum(1 for i in items if i[0] == 'exc'))
+        ctx.count('falsy_values=%d' % sum(1 for i in items if i[0] == 'ok' and i[1] in SPECIAL or i[1] == 0))
+        if slow:
+            ctx.count('slow_put')
         oracle(ctx, case, out, raised, hang)
         if hang or any(o[0] == 'junk' for o in out):
             obs = '([Exc (-999)], Some (-999))'   # cannot be produced by the model
         else:
             obs = '(%s, %s)' % (llit(out, vlit), olit(raised))
         split = ctx.rng.randrange(0, n + 2)
-        terms.append('(%d%%nat, %s, %s, %s, %d%%nat, %s, %s)' % (
-            ps, blit(use_ro), llit(items, vlit), llit(arrival, lambda a: '%d%%nat' % a), split, blit(api == 'map'), obs))
+        # worker trace: only meaningful (complete) when the pool ran to the end without a forced shutdown
+        check_trace = pool_path and raised is None and not hang
+        tr = trace if check_trace else []
+        terms.append('(%d%%nat, %s, %s, %s, %d%%nat, %s, %s, %s, %s)' % (
+            ps, blit(use_ro), llit(items, vlit), llit(arrival, lambda a: '%d%%nat' % a), split, blit(api == 'map'), obs,
+            blit(check_trace), llit(tr, lambda e: '(%s, %d%%nat)' % (blit(e[0]), e[1]))))
         descr.append({'api': api, 'pool_size': ps, 'use_result_objects': use_ro, 'items': items,
-                      'completion_order': arrival, 'split_used_for_model': split,
+                      'completion_order': arrival, 'split_used_for_model': split, 'slow_put': slow,
+                      'worker_trace(put=True/done=False, index)': tr,
                       'implementation_yielded': out, 'implementation_raised': raised})
     ctx.corr_check(
-        'imap', 'Pool',
-        'nat * bool * list val * list nat * nat * bool * (list val * option Z)', terms,
-        "fun c => let '(ps, ro, items, arr, split, is_map, out) := c in "
-        "result_eqb (as_list_api is_map (imap ps ro items arr split)) out",
+        'imap', 'Pool PoolSync',
+        'nat * bool * list val * list nat * nat * bool * (list val * option Z) * bool * list (bool * nat)', terms,
+        "fun c => let '(ps, ro, items, arr, split, is_map, out, chk, tr) := c in "
+        "result_eqb (as_list_api is_map (imap ps ro items arr split)) out && "
+        "(negb chk || (wf_trace (List.length items) (map wev_of tr) && "
+        " match map_each_ev (negb ro) items (map wev_of tr) split 0 with "
+        " | Some r => result_eqb r out | None => false end))",
         lambda i: descr[i])
+    from props import c15_consumers
+    c15_consumers.run(ctx)
